@@ -226,6 +226,10 @@ def run_shard(ctx, desc):
         body(ms)
         ctx.label("metamodule_nested_%d_levels" % min(3, build.meta_depth(ms)))
 
+    if desc.get("sweep") and "Amplifier" in desc["sweep"]:
+        for ms in build.big_payload_module_specs():
+            body(ms)
+            ctx.label("chunk_payload_of_64KiB_or_more")
     if not run_property(ctx, build.nested_meta(max_levels=4), body_deep, 4 if ctx.tier == "quick" else 30, tag="deep", bucket="module"):
         return
     # guaranteed sweep of this shard's share of the 42 types, then the random draw
